@@ -381,6 +381,16 @@ def x_run(ctx, case):
         text = out.getvalue()
         ctx.check(("Ran %d test" % len(want)) in text, "run.summary-counts-the-listed",
                   lambda: {"output": text[-200:], "want": len(want)})
+        # both options together: exactly the listed ids that exist are printed, nothing is run
+        del runlog[:]
+        out = io.StringIO()
+        try:
+            TestProgram(module=mod, argv=["prog", "--list", "--load-list", path, "test_suite"], stdout=out, exit=False)
+        except SystemExit as e:
+            ctx.check(False, "run.list-prints-exactly-the-ids", {"SystemExit": repr(e.code), "with": "--load-list"})
+        listed = out.getvalue().split("\n")
+        ctx.check(listed[-1:] == [""] and listed[:-1] == want and not runlog, "run.list-prints-exactly-the-ids",
+                  lambda: {"listed with --load-list": listed, "want": want, "ran": runlog, "tree": tree, "keep": keep})
     finally:
         shutil.rmtree(d, ignore_errors=True)
         sys.modules.pop(modname, None)
